@@ -228,6 +228,11 @@ def taint(repo, col, R):
         fi = _lookup(repo, E, k)
         if fi is not None:
             todo.append(fi)
+    # the data-feeding API is called INSIDE jit / vmap / grad (that is its purpose): the values it is handed are traced
+    DATA_API = {"data_set": {"val"}, "data_stimulate": {"current"}, "data_clamp": {"state_array"}, "_data_external_input": {"state_array"}}
+    for m_ in DATA_API:
+        if m_ in repo.classes["Module"].methods:
+            todo.append(repo.classes["Module"].methods[m_])
     n_sinks = 0
     for fi in todo:
         if fi.qual in seen_q or fi.qual in ("integrate",):
@@ -239,6 +244,8 @@ def taint(repo, col, R):
             # these run inside the traced call: the module's own dictionaries are concrete, but the data-fed values
             # (element 1 of data_stimuli / data_clamps) are traced under jit / vmap / grad
             traced = {"data_stimuli", "data_clamps"}
+        if fi.cls == "Module" and fi.name in DATA_API:
+            traced = set(DATA_API[fi.name]) & set(fi.params)
         if fi.name in ("convert_point_process_to_distributed", "_get_external_input"):
             traced |= {"length", "length_single_compartment", "radius", "current", "i_stim"}
         if fi.qual.startswith("integrate.") or fi.qual.startswith("build_init_and_step_fn."):
@@ -520,6 +527,26 @@ def checkpoint_padding(repo, col, R):
     """integrate: padding to prod(checkpoint_lengths) at the END, with zeros."""
     ig = repo.func(IG, "integrate")
     exg = idx.expander(repo, ig)
+    # a factorisation is accepted iff it is long enough: steps <= prod(checkpoint_lengths), equality included
+    is_len = lambda t: T.find(t, lambda x: x.op == "call" and x.name in ("prod",) and T.find(x, lambda y: y.op == "param" and y.name == "checkpoint_lengths") is not None) is not None
+    for a_ in ast.walk(ig.node):
+        if isinstance(a_, ast.Assert):
+            tt = exg.term(a_.test)
+            neg = False
+            while tt.op == "not" or (tt.op == "unary" and tt.name == "Not"):
+                neg, tt = not neg, tt.args[0]
+            if tt.op == "cmp" and len(tt.args) == 2 and (is_len(tt.args[0]) != is_len(tt.args[1])):
+                op = tt.name
+                if neg:
+                    op = {"<": ">=", "<=": ">", ">": "<=", ">=": "<", "==": "!=", "!=": "=="}.get(op, op)
+                if is_len(tt.args[0]):
+                    op = {"<": ">", ">": "<", "<=": ">=", ">=": "<="}.get(op, op)     # normalised to  steps OP length
+                col.add(R, ig, "a checkpoint factorisation is accepted iff its product is at least the number of steps",
+                        "DISCHARGED" if op == "<=" else ("VIOLATED" if op in ("<", "==", "!=", ">", ">=") else "UNDECIDED"),
+                        "steps <= prod(checkpoint_lengths)" if op == "<=" else
+                        f"the run is accepted only if steps {op} prod(checkpoint_lengths): " +
+                        ("a factorisation whose product EQUALS the number of steps (the natural choice, e.g. [4, 5] for 20 steps) is refused although the "
+                         "plain call works" if op == "<" else "longer factorisations (which are padded) are refused or shorter ones accepted"), node=a_)
     def given(g):
         """the guard says that checkpoint_lengths was given (is not None), whatever the polarity of the test in the source"""
         pol = True
